@@ -6,6 +6,7 @@ import EvyV.Driver.BcDrv
 import EvyV.Driver.ExprDrv
 import EvyV.Driver.EvalDrv
 import EvyV.Driver.EnvDrv
+import EvyV.Gen.Shapes
 /-
 Line protocol driver (core-only, compiled as `lean_exe evyv`).
 One request per line, one answer per line. See DESIGN.md §3.2.
@@ -53,6 +54,7 @@ def handle (line : String) : String :=
   | "bcverify" :: rest => BcDrv.handleVerify rest
   | "symtab" :: rest => BcDrv.handleSymtab rest
   | "exprvm" :: rest => ExprDrv.handle rest
+  | ["shape", "writeAtomically"] => " ".intercalate (Gen.writeAtomically.map (·.1))
   | "envsplit" :: rest => EnvDrv.handleSplit rest
   | "verifychoice" :: rest => EnvDrv.handleVerify rest
   | _ => "ERR unknown request"
